@@ -126,11 +126,16 @@ void iv_event_unregister(struct iv_event *this)
 {
 	struct iv_state *st = this->owner;
 
-	if (!iv_list_empty(&this->list)) {
-		___mutex_lock(&st->event_list_mutex);
+	/*
+	 * The list linkage of a pending event is also written by
+	 * other threads, under the mutex, when they queue another
+	 * event next to it, so it must not be inspected without
+	 * holding the mutex either.
+	 */
+	___mutex_lock(&st->event_list_mutex);
+	if (!iv_list_empty(&this->list))
 		iv_list_del(&this->list);
-		___mutex_unlock(&st->event_list_mutex);
-	}
+	___mutex_unlock(&st->event_list_mutex);
 
 	if (!--st->event_count && is_mt_app()) {
 		if (iv_event_use_event_raw) {
